@@ -537,7 +537,7 @@ def run(eng, rep):
     rep.not_decided += ["'a later run can only improve on an earlier one' beyond the merge guard", "anything about objective values themselves"]
     rep.guarded(rule_results_consumed, eng, rep)
     rep.guarded(rule_incumbent_saved_before_restart, eng, rep)
-    rep.guarded(rule_selection, eng, rep, "C04-3.selection-prefers-the-smaller-value", {"ORDER", "NONE_HOLDER"}, "C04")
+    rep.guarded(rule_selection, eng, rep, "C04-3.selection-prefers-the-smaller-value", {"ORDER", "NONE_HOLDER", "NAN_HOLDER"}, "C04")
     rep.guarded(rule_exits_select, eng, rep)
     rep.guarded(rule_incumbent_not_overwritten_blindly, eng, rep)
     rep.guarded(rule_ratio_sign_is_the_sign_of_the_actual_reduction, eng, rep)
